@@ -4,6 +4,7 @@ package rules
 
 import (
 	"fmt"
+	"go/types"
 	"sort"
 	"strings"
 
@@ -59,8 +60,12 @@ type Ctx struct {
 	wsites    []*writeSite
 	flagStrong map[*ssa.Alloc]bool
 	flagKnown  map[*ssa.Alloc]bool
+	fieldStrong map[*types.Var]bool
+	fieldKnown  map[*types.Var]bool
 
 	Exemptions map[string]string // obligation key -> reason (from exemptions.json)
+	Scoped     []ScopedExemption // exemptions that name a construct within a scope instead of one function
+	exclCache  map[string]map[string]bool
 
 	errDrop, errHandle *Result
 	errVerdicts        map[ssa.Instruction]Obligation
@@ -68,7 +73,47 @@ type Ctx struct {
 	errHandleKey       map[ssa.Instruction]string
 }
 
-func NewCtx(p *load.Program) *Ctx { return &Ctx{P: p} }
+func NewCtx(p *load.Program) *Ctx {
+	c := &Ctx{P: p}
+	c.initSentinels()
+	return c
+}
+
+// initSentinels records the sentinel error variables of the repository.
+func (c *Ctx) initSentinels() {
+	for k := range nonNilErrGlobals {
+		delete(nonNilErrGlobals, k)
+	}
+	stores := map[*ssa.Global][]*ssa.Store{}
+	for _, fn := range c.P.RepoFns {
+		allInstrs(fn, func(in ssa.Instruction) {
+			if st, ok := in.(*ssa.Store); ok {
+				if g, ok := st.Addr.(*ssa.Global); ok && isErrorType(derefType(g.Type())) {
+					stores[g] = append(stores[g], st)
+				}
+			}
+		})
+	}
+	for g, sts := range stores {
+		if len(sts) != 1 {
+			continue
+		}
+		st := sts[0]
+		fn := st.Block().Parent()
+		if !(fn.Parent() == nil && (fn.Name() == "init" || strings.HasPrefix(fn.Name(), "init#"))) {
+			continue
+		}
+		switch v := st.Val.(type) {
+		case *ssa.MakeInterface:
+			nonNilErrGlobals[g] = true
+		case *ssa.Call:
+			f := staticCallee(&v.Call)
+			if isFn(f, "errors", "New") || isFn(f, "fmt", "Errorf") {
+				nonNilErrGlobals[g] = true
+			}
+		}
+	}
+}
 
 func (r *Result) add(o Obligation) {
 	o.Rule = r.Rule
@@ -133,4 +178,71 @@ func sortedKeys[M ~map[string]V, V any](m M) []string {
 	}
 	sort.Strings(ks)
 	return ks
+}
+
+// ScopedExemption exempts obligations of Rule whose construct (the part of the
+// key after the function) is Construct, for functions within Scope:
+// "package:<short path>" or "command:<name>" (functions reachable from that
+// command's entry points and from no other command's). Renaming or splitting a
+// function inside the scope does not invalidate it.
+type ScopedExemption struct {
+	Rule      string `json:"rule"`
+	Construct string `json:"construct"`
+	Scope     string `json:"scope"`
+	Reason    string `json:"reason"`
+}
+
+// ExemptReason returns the reason if the obligation key is exempt.
+func (c *Ctx) ExemptReason(rule, key string) (string, bool) {
+	if r, ok := c.Exemptions[key]; ok {
+		return r, true
+	}
+	parts := strings.SplitN(key, ":", 3)
+	if len(parts) < 3 {
+		return "", false
+	}
+	fn, construct := parts[1], parts[2]
+	if i := strings.LastIndex(construct, "#"); i > 0 {
+		construct = construct[:i]
+	}
+	for _, e := range c.Scoped {
+		if e.Rule != rule || e.Construct != construct {
+			continue
+		}
+		switch {
+		case strings.HasPrefix(e.Scope, "package:"):
+			pk := strings.TrimPrefix(e.Scope, "package:")
+			f := strings.TrimPrefix(strings.TrimPrefix(fn, "(*"), "(")
+			if strings.HasPrefix(f, pk+".") {
+				return e.Reason, true
+			}
+		case strings.HasPrefix(e.Scope, "command:"):
+			if c.exclusiveTo(strings.TrimPrefix(e.Scope, "command:"))[fn] {
+				return e.Reason, true
+			}
+		}
+	}
+	return "", false
+}
+
+// exclusiveTo: names of the functions reachable from the entries of command
+// name and from the entries of no other command.
+func (c *Ctx) exclusiveTo(name string) map[string]bool {
+	if c.exclCache == nil {
+		c.exclCache = map[string]map[string]bool{}
+	}
+	if m, ok := c.exclCache[name]; ok {
+		return m
+	}
+	mine := c.cmdFns(name)
+	for _, cmd := range c.Commands().Commands {
+		if cmd.Name == name || len(cmd.Entries) == 0 {
+			continue
+		}
+		for f := range c.cmdFns(cmd.Name) {
+			delete(mine, f)
+		}
+	}
+	c.exclCache[name] = mine
+	return mine
 }
